@@ -417,6 +417,17 @@ func WGAdd(p uintptr, d int) {
 	S.do(&op{k: KWGAdd, obj: p, n: d})
 }
 func WGWait(p uintptr) { S.do(&op{k: KWGWait, obj: p}) }
+var onceSeq uint64
+
+// OnceKey returns the identity stored in a Once value, giving it a fresh one
+// when the value is (again) the zero value.
+func OnceKey(id *uint64) uintptr {
+	if *id == 0 {
+		*id = atomic.AddUint64(&onceSeq, 1)
+	}
+	return uintptr(*id)
+}
+
 func OnceDo(p uintptr, f func()) {
 	o := S.do(&op{k: KOnceEnter, obj: p})
 	if o.rok {
